@@ -639,6 +639,7 @@ fn main() {
             break;
         }
     }
+    extra.push(format!("\"cpu_has_bmi2\":{}", bmi2() as u32));
     extra.push(format!("\"hangs\":{}", hangs));
     extra.push(format!("\"panics\":{}", panics));
     w.finish(&extra.join(","));
